@@ -47,6 +47,7 @@ func zzExecBlockWith(lg *Ledger, h uint64, parent *types.Hash, kind int, v uint8
 // (lost/durable), number of block-file tables appended (0..5), journal-pruning batch.
 // Then the node restarts (block file repaired, ledger.New) and must open at h-1 or h with
 // mutually consistent stores, and be able to execute the next block.
+// zz:also C09
 func ZZH_C11_crash() {
 	zz.HashForkOff()
 	chainStore, stateStore := zz.NewStore(), zz.NewStore()
@@ -104,6 +105,11 @@ func ZZH_C11_crash() {
 		if errT == nil {
 			headT := lgT.GetChainMeta().Height
 			zz.Assert("C11.torn-index.height", headT == h || headT == h-1)
+			if headT == h-1 {
+				// (C09) no lookup returns anything that belongs to a height above the head
+				_, eh := lgT.GetBlockByHash(bd.Block.BlockHash, false)
+				zz.Assert("C09.crash.no-lookup-above-the-head", eh != nil)
+			}
 			if headT > 0 {
 				_, e := lgT.GetBlock(headT, true)
 				zz.Assert("C11.torn-index.head-readable", e == nil)
@@ -149,6 +155,9 @@ func ZZH_C11_crash() {
 		}
 	}
 	if head == h-1 {
+		// (C09) no lookup returns anything that belongs to a height above the head
+		_, eh := lg2.GetBlockByHash(bd.Block.BlockHash, false)
+		zz.Assert("C09.crash.no-lookup-above-the-head", eh != nil)
 		// nothing of the lost block is left in the state: its storage / code / balance are gone
 		// and executing it again gives the state root the uncrashed execution computed
 		if kind == 3 {
